@@ -1,6 +1,6 @@
 (* C20 — Symbolic right-hand side and Jacobian matrices are those of the model. *)
 From Coq Require Import Reals QArith.
-From GX Require Import Base Expr Topo Ode Target Sem Schemes Sympytools RealsC DiffR Examples.
+From GX Require Import Base Expr Topo Ode Target Sem Schemes Sympytools SympyTotal RealsC DiffR Examples.
 Close Scope Q_scope. Close Scope R_scope.
 Open Scope string_scope.
 Open Scope list_scope.
@@ -24,6 +24,21 @@ Theorem C20_symbolic_rhs_is_fully_expanded :
   forall o max_tries es, rhs_matrix o max_tries = Some es -> existsb (mentions_inter o) es = false.
 Proof. exact rhs_matrix_fully_expanded. Qed.
 Print Assumptions C20_symbolic_rhs_is_fully_expanded.
+
+(* "produced for any acyclic dependency depth": whenever the model has a statement order at all (its
+   assignments do not depend on each other cyclically), the right-hand side and the Jacobian are
+   produced with the default bound - after at most one substitution round, because every intermediate
+   was expanded after the intermediates it reads (soundness of the topological order) *)
+Theorem C20_rhs_is_produced_for_any_acyclic_dependency_depth :
+  forall o ord, sorted_names o false = Some ord -> exists es, rhs_matrix o (default_tries o) = Some es.
+Proof. exact rhs_matrix_total. Qed.
+Print Assumptions C20_rhs_is_produced_for_any_acyclic_dependency_depth.
+
+Theorem C20_jacobian_is_produced_for_any_acyclic_dependency_depth :
+  forall o ord, sorted_names o false = Some ord ->
+    forall ss, sorted_states o = Some ss -> exists j, jacobian o (default_tries o) = Some j.
+Proof. exact jacobian_total. Qed.
+Print Assumptions C20_jacobian_is_produced_for_any_acyclic_dependency_depth.
 
 (* the Jacobian entries are D applied to the expanded entries, and D is the derivative over the
    reals (smooth fragment, points of the domain) with all other names held fixed *)
